@@ -86,6 +86,10 @@ type G struct {
 	StartStep, EndStep int
 	// Local is private storage for harness code running on this goroutine.
 	Local any
+	// Mark is a scratch word for the harness (set by the scheduler side, e.g. in
+	// OnRelease, read by norace harness code on the goroutine: a plain field, not
+	// a map, so that race builds see no access).
+	Mark int
 }
 
 func (g *G) String() string { return fmt.Sprintf("g%d(%s)", g.ID, g.Site) }
